@@ -48,13 +48,29 @@ def _worker(args):
         if len({tuple(m) for m in j["e2n"]}) != len(j["e2n"]) or not j["nodes"]:
             continue
         rng = random.Random(seed_ * 982451653 + base + k)
-        g = Gamma(*nets.FAMS[(base + k) % 2])  # orderable labels: all ints or all strings
+        # orderable labels: all ints or all strings; also ints whose set iteration order is not ascending
+        g = Gamma(*[("ints", "int"), ("str", "int"), ("descset", "int"), ("collide", "int")][(base + k) % 4])
         vname, emap = rng.choice(obscore.edge_id_variants(j, rng))
         H = obscore.realise(j, g, rng, shuffle=True, edge_id_map=emap)
         st, anom = hg.proj(H, g)
         o, errs = observe(H)
         out.append({"rid": f"s{base + k}", "what": f"shape {base + k} ({g.name}/{vname})", "st": st, "obs": o,
                     "anom": sorted(set(anom + errs))})
+        # the same object after a count-preserving rewiring (a cache keyed on counts would go stale)
+        cand = [(e, n, m) for e in H.edges for n in H._edge[e] for m in H.nodes if m not in H._edge[e]]
+        rng.shuffle(cand)
+        for e, n, m in cand[:3]:
+            K = H.copy()
+            observe(K)
+            K.remove_node_from_edge(e, n, remove_empty=False)
+            K.add_node_to_edge(e, m)
+            if len({frozenset(x) for x in K._edge.values()}) != K.num_edges:
+                continue
+            st2, anom2 = hg.proj(K, g)
+            o2, errs2 = observe(K)
+            out.append({"rid": f"s{base + k}.rewired", "what": f"shape {base + k} rewired in place ({g.name}/{vname})", "st": st2,
+                        "obs": o2, "anom": sorted(set(anom2 + errs2))})
+            break
     return out
 
 
